@@ -14,6 +14,13 @@ CHECKS = {
     ),
 }
 
+CHECKS["C01"] = dict(
+    engine="crashmc", category="fault_enumeration", design_ref="DESIGN.md 3.1",
+    technique="exhaustive crash-state enumeration: every history h.o up to a depth bound, o's file-system effects recorded by an LD_PRELOAD shim, every effect-prefix (kill), torn write prefix, power-loss loss pattern and crash-inside-recovery state materialised and recovered with the real engine, compared with the reference map of acknowledged operations",
+    text="For every configuration in a small grid and every history of length <= depth over a 9-letter alphabet (plus the very first open), the last operation runs under kvshim recording and every crash state of it is enumerated: kill after each effect prefix, all torn prefixes of the next write, every combination of per-file / per-directory unsynced-suffix loss (power loss, fsync=always), and a second-level crash at every effect boundary inside the recovery itself; each state is recovered by the real strict start-up path and must yield model(acked) or model(acked+in-flight). The periodic-fsync clause is decided the same way under a logical clock on (gap, op) histories. Bounded-exhaustive; caps are reported.",
+    note="Trusted: kvshim's interposition covers every mutating fs call of the engine (open/write/fsync/fdatasync/ftruncate/rename/unlink), the power-loss model stated in the property, the in-harness copy of the server's recover-or-fresh decision, tmpfs. Bounds: depth 3 quick / 4 thorough, ids {1,2}, 4-8 configurations. Known findings (partial batch delete, periodic idle tail never flushed) are listed in known_findings.txt.",
+)
+
 # properties not claimed (yet): id -> reason
 NOT_APPLICABLE = {}
 
